@@ -221,6 +221,27 @@ def run_property(pid, tier, seed, args):
                 r2 = solve.second_opinions(tasks[i].smt2, 30)
                 agree[i] = [{'backend': x['backend'], 'status': x['status'], 'time': round(x['time'], 3)} for x in r2]
 
+    # ---- thorough tier: spec-vs-tool validation and end-to-end replays with the real tools --------------------
+    spec_validation, end_to_end = [], []
+    if tier == 'thorough':
+        for which in spec.get('validate', []):
+            try:
+                if which == 'sh':
+                    from specs import validate_sh
+                    c_, b_ = validate_sh.main(maxlen=5, limit=60000, seed=seed)
+                else:
+                    from specs import validate_make
+                    c_, b_ = validate_make.main(limit=3000, seed=seed)
+            except Exception as e:      # noqa
+                log('CHECK-ERROR property=%s spec validation %s crashed: %r' % (pid, which, e))
+                return 3
+            spec_validation.append({'spec': which, 'texts_read_literally_by_spec': c_, 'disagreements_with_tool': b_})
+            if b_:
+                log('CHECK-ERROR property=%s specs/%s.py disagrees with the real tool on %d texts (a bug of the spec)' % (pid, which, b_))
+                return 3
+        from . import e2e
+        end_to_end = e2e.run_for(pid)
+
     # ---- native: cross-check + executable contracts ------------------------------------------------
     nat = N.native_checks(pid, mine, registry, reports, tier, seed)
 
@@ -363,6 +384,8 @@ def run_property(pid, tier, seed, args):
             'solver_cpu_s': round(sum(r['time'] for r in results.values()), 2),
             'canaries': {'checked': len(canary_tasks), 'vacuous': vacuous},
             'cross_check': nat['cross_check'],
+            'spec_validation_against_real_tools': spec_validation,
+            'end_to_end_replays_with_real_tools': end_to_end,
             'bounded': nat['bounded'],
             'undecided_functions': [{'target': c.target, 'reason': err} for c, err in undecided_fns],
             'undecided_obligations': undecided,
